@@ -59,7 +59,7 @@ class Frame:
 
 class Gen:
     def __init__(self, rng: random.Random, weights: dict | None = None, size: tuple[int, int] = (20, 60), rom: str = "low",
-                 max_depth: int = 4):
+                 max_depth: int = 4, reuse: float = 0.0):
         self.rng = rng
         self.w = dict(DEFAULT_WEIGHTS)
         if weights:
@@ -67,6 +67,9 @@ class Gen:
         self.size = size
         self.rom = rom
         self.max_depth = max_depth
+        self.reuse = reuse          # probability that an inner scope re-defines a label name used elsewhere (shadowing / sibling reuse)
+        self.label_pool: list[str] = []
+        self.unsized_label_refs = 0.3
         self.n = 0
         self.budget = 0
         self.files: dict[str, bytes] = {}
@@ -159,7 +162,15 @@ class Gen:
         n = max(1, budget)
         # plan the labels / symbols of this scope so that forward references are possible
         nlabels = r.randint(0, max(1, n // 4))
-        fr.labels_planned = [self.name("lab") for _ in range(nlabels)]
+        fr.labels_planned = []
+        for _ in range(nlabels):
+            if fr.kind not in ("root", "macro_body") and not fr.in_macro and self.label_pool and r.random() < self.reuse:
+                cand = r.choice(self.label_pool)
+                if cand not in fr.labels_planned:
+                    fr.labels_planned.append(cand)
+                    continue
+            fr.labels_planned.append(self.name("lab"))
+        self.label_pool += [n for n in fr.labels_planned if n not in self.label_pool]
         if fr.kind == "root":
             Gen.global_names = self.global_names = list(fr.labels_planned)
         pending_labels = list(fr.labels_planned)
@@ -252,7 +263,7 @@ class Gen:
             child = Frame("named", fr)
             ns = self.name("ns")
             b = self.body(child, depth + 1, r.randint(1, 6))
-            fr.exports[ns] = list(child.labels_planned)
+            fr.exports[ns] = list(child.labels_planned) + list(child.consts) + list(child.syms_planned)
             return [{"k": "scope", "n": ns, "b": b}]
         if kind == "for_":
             child = Frame("for", fr)
@@ -287,6 +298,12 @@ class Gen:
                 then.insert(r.randint(0, len(then)), {"k": "assign", "n": nm, "e": [num(r.randrange(256))]})
                 if els is not None and r.random() < 0.5:
                     els.insert(r.randint(0, len(els)), {"k": "assign", "n": nm, "e": [num(r.randrange(256))]})
+            if pending_labels and r.random() < 0.3:
+                # a label defined inside a taken branch is a label of the enclosing scope
+                cond = [num(r.choice([1, 2, 255]))]
+                lab = pending_labels.pop(0)
+                fr.labels_done.append(lab)
+                then.insert(r.randint(0, len(then)), {"k": "label", "n": lab})
             return pre + [{"k": "if", "c": cond, "t": then, "e": els}]
         if kind == "macro":
             if fr.kind != "root":
@@ -351,6 +368,10 @@ class Gen:
                     e = self.value_expr(fr, "emission")
                 return {"k": "ins", "m": m, "shape": shape, "sz": suffix, "e": e}
             mags = sorted(sufs[""])
+            lp_labels = [n for n in self.visible_labelpass(fr) if n.startswith("lab")]
+            if lp_labels and "w" in mags and "l" in mags and r.random() < self.unsized_label_refs:
+                # width inferred from a label that already has a value while labels are resolved
+                return {"k": "ins", "m": m, "shape": shape, "sz": "", "e": [sym(r.choice(lp_labels))]}
             mag = r.choice(mags)
             v = r.choice(MAG_VALUES[mag])
             return {"k": "ins", "m": m, "shape": shape, "sz": "", "e": [num(v, r.choice("xXd"))]}
